@@ -425,6 +425,92 @@ def run_same_def(w) -> None:
         loaded.unload()
 
 
+CONSTRUCTIONS_SOURCE = '''
+import typing
+import icontract
+
+
+def consistent(self):
+    """An invariant which asks a public method of the object."""
+    HUB.inv("inv", self)
+    return self.ok()
+
+
+@icontract.invariant(consistent)
+class WithInit{base}:
+    def __init__(self, x=1):
+        self.x = x
+
+    def ok(self):
+        HUB.body("ok", {{}})
+        return True
+
+
+@icontract.invariant(consistent)
+class WithoutConstructor{base}:
+    x = 1
+
+    def ok(self):
+        HUB.body("ok", {{}})
+        return True
+
+
+@icontract.invariant(consistent)
+class WithNew{base}:
+    def __new__(cls, x=1):
+        self = super().__new__(cls)
+        self.x = x
+        return self
+
+    def ok(self):
+        HUB.body("ok", {{}})
+        return True
+
+
+@icontract.invariant(consistent)
+class Tuple(typing.NamedTuple):
+    x: int = 1
+
+    def ok(self):
+        HUB.body("ok", {{}})
+        return True
+'''
+
+
+def run_constructions(w) -> None:
+    """An invariant which calls a public method of the object: that call is a re-entry while the invariants of the object are being
+    evaluated - whatever kind of constructor the class has (``__init__``, ``__new__`` alone, none at all, a named tuple)."""
+    for dbc in (False, True):
+        loaded = prog.load_source(CONSTRUCTIONS_SOURCE.format(base="(icontract.DBC)" if dbc else ""), w.scratch())
+        mod, hub = loaded.module, loaded.hub
+        try:
+            for cname in ("WithInit", "WithoutConstructor", "WithNew", "Tuple"):
+                hub.reset()
+                try:
+                    obj = getattr(mod, cname)()
+                    outcome = "returned"
+                except BaseException as err:  # pylint: disable=broad-except
+                    obj = None
+                    outcome = "raised {}: {}".format(type(err).__name__, str(err)[:100])
+                built = [(e.kind, e.id) for e in hub.events]
+                hub.reset()
+                if obj is not None:
+                    obj.ok()
+                called = [(e.kind, e.id) for e in hub.events]
+                w.count("invocations_judged", 2)
+                w.count("must_skip_invariants_invocations", 3)
+                w.count("constructions_judged")
+                w.case(("construction", cname, dbc))
+                want_built = [("inv", "inv"), ("body", "ok")]
+                want_called = [("inv", "inv"), ("body", "ok"), ("body", "ok"), ("inv", "inv"), ("body", "ok")]
+                if outcome != "returned" or built != want_built or called != want_called:
+                    w.violation("C10/re-entrant-call-checked", "{}{}: construction {} with events {} (expected {}), then ok() with events {} (expected {}): "
+                                "the call which the invariant makes on its own object is a re-entry and is skipped".format(
+                                    cname, " on DBC" if dbc else "", outcome, built, want_built, called, want_called), {"construction": cname})
+        finally:
+            loaded.unload()
+
+
 def run_directed(w, graph_index: int, is_async: bool) -> None:
     """Directed graphs: a contract probe re-enters its own function EVERY time it runs, after another contracted function was checked in
     between (called by the probe itself and, every time, by the body); termination rests on the suspension rule alone."""
@@ -661,6 +747,8 @@ def run(w) -> None:
         run_other_flows(w)
     if w.shard == 1 % w.nshards:
         run_same_def(w)
+    if w.shard == 2 % w.nshards:
+        run_constructions(w)
     n = 20000 if w.tier == "thorough" else 1500
     for i in range(n):
         if i % w.nshards != w.shard:
@@ -673,6 +761,9 @@ def run(w) -> None:
 
 
 def replay(case, w) -> None:
+    if "construction" in case:
+        run_constructions(w)
+        return
     if "other_flow" in case:
         run_other_flows(w)
         return
